@@ -162,8 +162,8 @@ func discoverUDP(c *Ctx) *udpModel {
 		switch {
 		case hasGo:
 			m.add = f
-		case hasUpd && res.Len() == 1 && eng.TypeName(res.At(0).Type()) == m.connT:
-			m.set = f
+		case hasUpd && !hasDel && !hasRange && res.Len() <= 1:
+			m.set = f // the insertion helper: builds and stores the entry (returning it), or stores the entry it is given
 		case hasDel && !hasRange && res.Len() >= 1 && res.Len() <= 2:
 			m.del = f // returns what it removed: the entry / its socket, possibly with an ok flag
 		case hasRange && res.Len() <= 1 && f.Signature.Params().Len() == 0:
